@@ -24,12 +24,15 @@ def WFRoute (r : Route) : Prop := r.ips ≠ some []
 
 /-- What the generic router proofs need of the outermost matcher: its layered `sat` is the flat
 specification and parsed routes are well-formed for it. -/
-structure TowerSpec (E : Env) {O : MOps} (OL : MLaws O) : Prop where
+structure TowerSpec (E : Env) {O : MOps} (OL : MLaws O) (GoodR : Route → Prop) : Prop where
   sat_eq : ∀ L r q, OL.sat L r q = sat E L r q
   wf : ∀ r, WFRoute r → OL.wf r
+  /-- `GoodR`: the routes that may be inserted (all of them for the specification-level tower; the
+  routes whose marker patterns are in the domain of C08 for the tower over the real tree model) -/
+  ins : ∀ r, GoodR r → OL.okIns r
 
 section
-variable (E : Env) {O : MOps} (OL : MLaws O) (hT : TowerSpec E OL)
+variable (E : Env) {O : MOps} (OL : MLaws O) {GoodR : Route → Prop} (hT : TowerSpec E OL GoodR)
 
 /-- Router state `S` represents the list `L` of live routes (each once, ids distinct). -/
 structure RReprG (S : RouterG O) (L : List Route) : Prop where
@@ -132,7 +135,7 @@ theorem aupsert_fresh {K V : Type} [DecidableEq K] (f : V → V) (emp : V) (k : 
     simp only [aupsert, this, if_false, ih h.2, List.cons_append]
 
 theorem g_insert (S : RouterG O) (L : List Route) (r : Route) (h : RReprG OL S L)
-    (hfresh : r.id ∉ L.map (·.id)) : RReprG OL (RouterG.insert O r S) (r :: L) := by
+    (hfresh : r.id ∉ L.map (·.id)) (hg : GoodR r) : RReprG OL (RouterG.insert O r S) (r :: L) := by
   have hids : NodupIds (r :: L) := by
     unfold NodupIds; simp only [List.map_cons, List.nodup_cons]; exact ⟨hfresh, h.ids⟩
   have hk : r.id ∉ akeys S.routes := by
@@ -142,7 +145,7 @@ theorem g_insert (S : RouterG O) (L : List Route) (r : Route) (h : RReprG OL S L
     have := h.keyed e he
     have hm : e.2 ∈ L := h.perm.mem_iff.1 (List.mem_map.mpr ⟨e, he, rfl⟩)
     exact List.mem_map.mpr ⟨e.2, hm, by rw [← this, hke]⟩
-  refine ⟨OL.repr_insert _ _ r h.matcher (nodupIds_uids hids).1, hids, ?_, ?_⟩
+  refine ⟨OL.repr_insert _ _ r h.matcher (nodupIds_uids hids).1 (hT.ins r hg), hids, ?_, ?_⟩
   · intro e he
     simp only [RouterG.insert, aupsert_fresh _ _ _ _ hk, List.mem_append, List.mem_singleton] at he
     rcases he with he | he
@@ -218,19 +221,22 @@ theorem g_batch (S : RouterG O) (L : List Route) (ids : List String) (h : RReprG
   · intro e he; exact h.keyed e (List.mem_filter.mp he).1
   · exact map_snd_filter_key E OL hT S L h (fun k => !ids.contains k)
 
-theorem g_insertAll (rs : List Route) : ∀ (S : RouterG O) (L : List Route), RReprG OL S L →
+theorem g_insertAll (rs : List Route) (hg : ∀ r ∈ rs, GoodR r) :
+    ∀ (S : RouterG O) (L : List Route), RReprG OL S L →
     FreshAll rs L → RReprG OL (rs.foldl (fun S r => RouterG.insert O r S) S) (insertAll rs L) := by
   induction rs with
   | nil => intro S L h _; exact h
   | cons r rs ih =>
     intro S L h hf
     simp only [List.foldl_cons, insertAll]
-    exact ih _ _ (g_insert E OL hT S L r h hf.1) hf.2
+    exact ih (fun x hx => hg x (List.mem_cons_of_mem _ hx)) _ _
+      (g_insert E OL hT S L r h hf.1 (hg r (List.mem_cons_self ..))) hf.2
 
 theorem g_changeSet (S : RouterG O) (L : List Route) (added updated : List Route)
     (removed : List String) (h : RReprG OL S L)
     (hf : FreshAll (updated ++ added)
-      (L.filter (fun r => !(removed ++ updated.map (·.id)).contains r.id))) :
+      (L.filter (fun r => !(removed ++ updated.map (·.id)).contains r.id)))
+    (hg : ∀ r ∈ updated ++ added, GoodR r) :
     RReprG OL (RouterG.applyChangeSet O added updated removed S) (liveChangeSet added updated removed L) := by
   unfold RouterG.applyChangeSet liveChangeSet
   have h1 := g_batch E OL hT S L (removed ++ updated.map (·.id)) h
@@ -244,8 +250,8 @@ theorem g_changeSet (S : RouterG O) (L : List Route) (added updated : List Route
       have := ih as (u :: L0) hf.2
       exact ⟨⟨hf.1, this.1⟩, this.2⟩
   have hs := split updated added _ hf
-  have h2 := g_insertAll E OL hT updated _ _ h1 hs.1
-  exact g_insertAll E OL hT added _ _ h2 hs.2
+  have h2 := g_insertAll E OL hT updated (fun r hr => hg r (List.mem_append_left _ hr)) _ _ h1 hs.1
+  exact g_insertAll E OL hT added (fun r hr => hg r (List.mem_append_right _ hr)) _ _ h2 hs.2
 
 /-! ### build -/
 
@@ -271,8 +277,9 @@ theorem freshAll_of_nodupIds (rs : List Route) (h : NodupIds rs) : FreshAll rs [
       exact hn.2.2 r.id (by simpa using hin) r.id (List.mem_cons_self ..) rfl
   exact key rs [] (by simpa using h)
 
-theorem g_build (R : List Route) (h : NodupIds R) : RReprG OL (RouterG.build O R) R.reverse := by
-  have := g_insertAll E OL hT R (RouterG.empty O) [] (g_empty E OL hT) (freshAll_of_nodupIds R h)
+theorem g_build (R : List Route) (h : NodupIds R) (hg : ∀ r ∈ R, GoodR r) :
+    RReprG OL (RouterG.build O R) R.reverse := by
+  have := g_insertAll E OL hT R hg (RouterG.empty O) [] (g_empty E OL hT) (freshAll_of_nodupIds R h)
   rw [insertAll_eq, List.append_nil] at this
   exact this
 
@@ -283,13 +290,14 @@ end
 section
 variable (E : Env)
 
-theorem tower_wf (r : Route) (h : WFRoute r) : (towerLaws E).wf r := by
+theorem towerL_wf {P0 : MOps} (PL : MLaws P0) {P : Type} [DecidableEq P] (H : HostCfg P)
+    (hPw : ∀ r, PL.wf r) (r : Route) (h : WFRoute r) : (towerL E PL H).wf r := by
   have hscheme : Scheme.keysOf r ≠ some [] := by
     unfold Scheme.keysOf
     cases r.scheme with
     | none => simp
     | some s => by_cases e : s = "" <;> simp [e]
-  have hhost : Host.keysOf r ≠ some [] := by
+  have hhost : Host.keysOf H r ≠ some [] := by
     unfold Host.keysOf
     cases r.host with
     | none => simp
@@ -309,9 +317,13 @@ theorem tower_wf (r : Route) (h : WFRoute r) : (towerLaws E).wf r := by
     unfold Header.keysOf; split <;> simp
   have hdt : DateTime.keysOf r ≠ some [] := by
     unfold DateTime.keysOf; simp only; split <;> simp
-  exact ⟨⟨⟨⟨⟨⟨trivial, hdt⟩, hheader⟩, hmethod⟩, h⟩, hhost⟩, hscheme⟩
+  exact ⟨⟨⟨⟨⟨⟨hPw r, hdt⟩, hheader⟩, hmethod⟩, h⟩, hhost⟩, hscheme⟩
 
-theorem towerSpec : TowerSpec E (towerLaws E) := ⟨tower_sat E, tower_wf E⟩
+theorem tower_wf (r : Route) (h : WFRoute r) : (towerLaws E).wf r :=
+  towerL_wf E (pathLaws E) (specHost E) (fun _ => trivial) r h
+
+theorem towerSpec : TowerSpec E (towerLaws E) (fun _ => True) :=
+  ⟨tower_sat E, tower_wf E, fun _ _ => trivial⟩
 
 /-- Router state `S` (specification-level tower) represents the list `L` of live routes. -/
 abbrev RRepr (S : Router E) (L : List Route) : Prop := RReprG (towerLaws E) S L
@@ -349,7 +361,7 @@ theorem rrepr_lookup (S : Router E) (L : List Route) (h : RRepr E S L) (id : Str
 
 theorem rrepr_insert (S : Router E) (L : List Route) (r : Route) (h : RRepr E S L)
     (hfresh : r.id ∉ L.map (·.id)) : RRepr E (S.insert E r) (r :: L) :=
-  g_insert E _ (towerSpec E) S L r h hfresh
+  g_insert E _ (towerSpec E) S L r h hfresh trivial
 
 theorem rrepr_remove (S : Router E) (L : List Route) (id : String) (h : RRepr E S L) :
     RRepr E (S.remove E id).1 (L.filter (fun r => r.id != id)) := g_remove E _ (towerSpec E) S L id h
@@ -370,10 +382,10 @@ theorem rrepr_changeSet (S : Router E) (L : List Route) (added updated : List Ro
     (hf : FreshAll (updated ++ added)
       (L.filter (fun r => !(removed ++ updated.map (·.id)).contains r.id))) :
     RRepr E (S.applyChangeSet E added updated removed) (liveChangeSet added updated removed L) :=
-  g_changeSet E _ (towerSpec E) S L added updated removed h hf
+  g_changeSet E _ (towerSpec E) S L added updated removed h hf (fun _ _ => trivial)
 
 theorem rrepr_build (R : List Route) (h : NodupIds R) : RRepr E (Router.build E R) R.reverse :=
-  g_build E _ (towerSpec E) R h
+  g_build E _ (towerSpec E) R h (fun _ _ => trivial)
 
 end
 
